@@ -27,7 +27,12 @@ R = "#/components/schemas/"
 POS = ["prop", "item", "addl", "union", "param", "body", "resp", "root", "root-item", "root-union"]
 # positions where ONE schema object of the document is turned into generated code several times
 SHARED_POS = ["pathitem-param", "comp-param", "comp-resp", "comp-resp-2status", "comp-body"]
-NULL_KINDS = ["str", "int", "num", "bool", "date", "datetime", "uuid", "model_ref", "enum_ref", "inline_object", ["array", "str"], ["array", "model_ref"]]
+NULL_KINDS = ["str", "int", "num", "bool", "date", "datetime", "uuid", "model_ref", "enum_ref", "inline_object", ["array", "str"], ["array", "model_ref"],
+              "annotated_object", "annotated_str"]      # schemas carrying a title of their own
+# (description / example of a nullable schema document the property in the type-list notations and the member in the union notation:
+#  the docstrings differ legitimately, so only the title - which names the class - is carried here)
+ANNOTATED = {"annotated_object": {"type": "object", "title": "Geo Point", "properties": {"lat": {"type": "number"}}},
+             "annotated_str": {"type": "string", "title": "Short Code", "maxLength": 5}}
 
 
 def holder(pos, sch, comps, required=False):
@@ -107,7 +112,7 @@ def composite_forms(name):
 def null_forms(kind):
     """Notation variants of 'kind or null' that must all generate the same client."""
     comps = {}
-    inner = K.schema(kind, comps)
+    inner = copy.deepcopy(ANNOTATED[kind]) if isinstance(kind, str) and kind in ANNOTATED else K.schema(kind, comps)
     forms = {}
     if "$ref" in inner:
         # 3.0 "nullable allOf" means oneOf[null, allOf[...]]: the index-preserving 3.1 spelling has the null member FIRST
@@ -174,11 +179,13 @@ def cases(tier):
     # nullable notations
     for kind in NULL_KINDS:
         for pos in POS:
+            if pos == "param" and kind == "annotated_object":
+                continue
             for req in ((False, True) if pos in ("prop", "param") else (False,)):
                 yield {"labels": [f"rewrite=nullable", f"kind={K.kstr(kind)}", f"pos={pos}"] + (["req"] if req else []),
                        "payload": {"mode": "nullable", "kind": kind, "pos": pos, "required": req}}
         for pos in SHARED_POS:
-            if pos.endswith("-param") and K.kstr(kind) in ("model_ref", "inline_object", "array(model_ref)"):
+            if pos.endswith("-param") and K.kstr(kind) in ("model_ref", "inline_object", "array(model_ref)", "annotated_object"):
                 continue
             yield {"labels": ["rewrite=nullable", f"kind={K.kstr(kind)}", f"pos={pos}"], "payload": {"mode": "nullable", "kind": kind, "pos": pos, "required": False}}
     for name in COMPOSITES:
@@ -221,6 +228,9 @@ def cases(tier):
     docs = ["tricky", "baseline30", "baseline31"] if tier == "thorough" else ["tricky", "baseline31"]
     for d in docs:
         yield {"labels": ["loaders", f"doc={d}"], "payload": {"mode": "loaders", "doc": d}}
+    # the output encoding is not the input encoding: a document with non-ASCII text, written under other --file-encoding values
+    for enc in ("cp1252", "latin-1", "utf-16", "utf-8-sig"):
+        yield {"labels": ["loaders", "doc=latin", f"file-encoding={enc}"], "payload": {"mode": "loaders", "doc": "latin", "encoding": enc}}
 
 
 def _compare(variants, key, site="-"):
@@ -258,7 +268,13 @@ def _yaml_dump(doc):
 
 def _loaders(p):
     name = p["doc"]
-    if name == "tricky":
+    enc = p.get("encoding", "utf-8")
+    if name == "latin":
+        doc = {"openapi": "3.1.0", "info": {"title": "Café API", "version": "1.0", "description": "déjà vu: ñ ü ß"}, "paths": {"/caf\u00e9": {"get": {
+            "operationId": "getCafe", "summary": "préparer", "parameters": [{"name": "côté", "in": "query", "schema": {"type": "string", "enum": ["intérieur", "extérieur"], "default": "intérieur"}}],
+            "responses": {"200": {"description": "très bien", "content": {"application/json": {"schema": {"$ref": "#/components/schemas/Boisson"}}}}}}}},
+            "components": {"schemas": {"Boisson": {"type": "object", "description": "une boisson", "properties": {"crème": {"type": "boolean", "default": False}, "thé": {"type": "string", "default": "rosé"}}}}}}
+    elif name == "tricky":
         doc = copy.deepcopy(TRICKY)
     else:
         path = os.path.join(gen.REPO, "end_to_end_tests", "baseline_openapi_3.0.json" if name == "baseline30" else "baseline_openapi_3.1.yaml")
@@ -274,19 +290,19 @@ def _loaders(p):
     os.makedirs(d)
     variants = {}
     try:
-        variants["in-process-dict"] = gen.generate(copy.deepcopy(doc))
+        variants["in-process-dict"] = gen.generate(copy.deepcopy(doc), encoding=enc) if enc != "utf-8" else gen.generate(copy.deepcopy(doc))
         files = {"doc.json": jbytes_ascii, "doc_utf8.json": jbytes_utf8, "doc.yaml": ybytes, "doc.yml": ybytes, "noext": jbytes_utf8, "noext_yaml": ybytes}
         for fn, b in files.items():
             (Path(d) / fn).write_bytes(b)
-            variants[f"file:{fn}"] = gen.generate_from_source(Path(d) / fn)
+            variants[f"file:{fn}"] = gen.generate_from_source(Path(d) / fn, encoding=enc)
         for i, (ctype, fmt) in enumerate(SERVE_TYPES):
             body = ybytes if fmt == "yaml" else (jbytes_ascii if ctype and "json" in ctype else jbytes_utf8)   # JSON reaching the YAML loader: without \\u surrogate-pair escapes, which YAML does not define
             url = gen.serve(f"/{name}/{i}/openapi", body, ctype)
-            variants[f"url:{ctype}:{fmt}"] = gen.generate_from_source(url)
+            variants[f"url:{ctype}:{fmt}"] = gen.generate_from_source(url, encoding=enc)
     finally:
         import shutil
         shutil.rmtree(d, ignore_errors=True)
-    viol, early = _compare(variants, f"loaders/{name}", "loader")
+    viol, early = _compare(variants, f"loaders/{name}" + (f"/{enc}" if enc != "utf-8" else ""), "loader")
     if early:
         return early
     return {"violations": viol, "outcome": "ok" if not viol else "viol:loaders", "nontrivial": True, "steps": len(variants)}
